@@ -53,6 +53,8 @@ type stats struct {
 	AccessSites []string `json:"access_sites"`
 	FieldSites  int      `json:"field_access_sites"`
 	Mutable     []string `json:"fields_written_after_construction"`
+	Globals     []string `json:"package_variables_written_by_functions"`
+	GlobalSites int      `json:"package_variable_access_sites"`
 	Tables      []string `json:"tables"`
 	Exports     []string `json:"exports"`
 }
@@ -93,6 +95,11 @@ func main() {
 		st.Mutable = append(st.Mutable, k)
 	}
 	sort.Strings(st.Mutable)
+	globals := collectMutableGlobals(pkgs)
+	for _, n := range globals {
+		st.Globals = append(st.Globals, n)
+	}
+	sort.Strings(st.Globals)
 	for _, p := range pkgs {
 		if !strings.HasPrefix(p.PkgPath, modPath) {
 			continue
@@ -135,6 +142,12 @@ func main() {
 			// --- field accesses of object-package structs (fields that are assigned somewhere)
 			if top == "evaluator" || top == "props" || top == "object" || top == "di" {
 				if n := insertFieldAccess(p, f, relFile, mutable, st); n > 0 {
+					changed, needRT = true, true
+				}
+			}
+			// --- package-level variables that functions (other than init) write
+			if len(globals) > 0 {
+				if n := insertAccessNamed(p, f, relFile, globals, st); n > 0 {
 					changed, needRT = true, true
 				}
 			}
@@ -210,6 +223,25 @@ func main() {
 	writeExport("ast/verif_order.go", astOrderSrc)
 	writeExport("object/verif_export.go", objectExportSrc(pkgs))
 	writeExport("di/verif_export.go", diExportSrc(pkgs))
+	// one registration file per package that owns function-written package-level variables, so that a harness
+	// can put them back between executions (they are interpreter-wide state like the symbol tables)
+	byPkg := map[string][]string{}
+	pkgName := map[string]string{}
+	for v := range globals {
+		rel := strings.TrimPrefix(strings.TrimPrefix(v.Pkg().Path(), modPath), "/")
+		byPkg[rel] = append(byPkg[rel], v.Name())
+		pkgName[rel] = v.Pkg().Name()
+	}
+	for rel, names := range byPkg {
+		sort.Strings(names)
+		var b strings.Builder
+		fmt.Fprintf(&b, "package %s\n\nimport verifrt \"%s/verifrt\"\n\n// added by the verification overlay\nfunc init() {\n", pkgName[rel], modPath)
+		for _, n := range names {
+			fmt.Fprintf(&b, "\tverifrt.RegisterGlobal(%q, &%s)\n", rel+"."+n, n)
+		}
+		b.WriteString("}\n")
+		writeExport(rel+"/verif_globals.go", b.String())
+	}
 
 	ov := map[string]interface{}{"Replace": overlay}
 	b, _ := json.MarshalIndent(ov, "", " ")
@@ -439,6 +471,199 @@ func insertAccess(p *packages.Package, f *ast.File, relFile string, tables map[t
 			fd.Body.List = doList(fd.Body.List)
 		}
 	}
+	return n
+}
+
+// collectMutableGlobals finds package-level variables of the repository's packages that some function other
+// than init assigns (x = v, x[i] = v, x.f = v, x++, x = append(x, ...)): interpreter-wide mutable state.
+// The two symbol tables of package object are handled by insertAccess (as scheduling points) and left out.
+func collectMutableGlobals(pkgs []*packages.Package) map[types.Object]string {
+	res := map[types.Object]string{}
+	for _, p := range pkgs {
+		if !strings.HasPrefix(p.PkgPath, modPath) {
+			continue
+		}
+		rel := strings.TrimPrefix(strings.TrimPrefix(p.PkgPath, modPath), "/")
+		for i, f := range p.Syntax {
+			if strings.HasSuffix(p.CompiledGoFiles[i], "_test.go") {
+				continue
+			}
+			for _, d := range f.Decls {
+				fd, ok := d.(*ast.FuncDecl)
+				if !ok || fd.Body == nil || (fd.Name.Name == "init" && fd.Recv == nil) {
+					continue
+				}
+				ast.Inspect(fd.Body, func(nd ast.Node) bool {
+					var lhs []ast.Expr
+					switch x := nd.(type) {
+					case *ast.AssignStmt:
+						if x.Tok != token.DEFINE {
+							lhs = x.Lhs
+						}
+					case *ast.IncDecStmt:
+						lhs = []ast.Expr{x.X}
+					}
+					for _, l := range lhs {
+						for {
+							switch y := l.(type) {
+							case *ast.ParenExpr:
+								l = y.X
+								continue
+							case *ast.IndexExpr:
+								l = y.X
+								continue
+							case *ast.StarExpr:
+								l = y.X
+								continue
+							case *ast.SelectorExpr:
+								if _, isPkg := p.TypesInfo.Uses[identOf(y.X)].(*types.PkgName); isPkg {
+									l = y.Sel
+								} else {
+									l = y.X
+								}
+								continue
+							}
+							break
+						}
+						id, ok := l.(*ast.Ident)
+						if !ok {
+							continue
+						}
+						v, ok := p.TypesInfo.Uses[id].(*types.Var)
+						if !ok || v.Pkg() == nil || !strings.HasPrefix(v.Pkg().Path(), modPath) || v.Parent() != v.Pkg().Scope() {
+							continue
+						}
+						name := strings.TrimPrefix(strings.TrimPrefix(v.Pkg().Path(), modPath), "/") + "." + v.Name()
+						if name == "object.symHashTable" || name == "object.strTable" {
+							continue
+						}
+						_ = rel
+						res[v] = name
+					}
+					return true
+				})
+			}
+		}
+	}
+	return res
+}
+
+func identOf(e ast.Expr) *ast.Ident {
+	id, _ := e.(*ast.Ident)
+	return id
+}
+
+// insertAccessNamed inserts verifrt.Global(name, write) before every statement whose own expressions mention
+// one of the given package-level variables (write if the statement assigns it or one of its elements).
+func insertAccessNamed(p *packages.Package, f *ast.File, relFile string, vars map[types.Object]string, st *stats) int {
+	n := 0
+	type acc struct {
+		name  string
+		write bool
+	}
+	scan := func(s ast.Stmt) []acc {
+		found := map[string]bool{}
+		writes := map[*ast.Ident]bool{}
+		var mark func(e ast.Expr)
+		mark = func(e ast.Expr) {
+			switch y := e.(type) {
+			case *ast.ParenExpr:
+				mark(y.X)
+			case *ast.IndexExpr:
+				mark(y.X)
+			case *ast.StarExpr:
+				mark(y.X)
+			case *ast.SelectorExpr:
+				mark(y.X)
+				mark(y.Sel)
+			case *ast.Ident:
+				writes[y] = true
+			}
+		}
+		ast.Inspect(s, func(nd ast.Node) bool {
+			switch x := nd.(type) {
+			case *ast.BlockStmt, *ast.FuncLit:
+				if nd != ast.Node(s) {
+					return false
+				}
+			case *ast.CaseClause, *ast.CommClause:
+				return false
+			case *ast.AssignStmt:
+				if x.Tok != token.DEFINE {
+					for _, l := range x.Lhs {
+						mark(l)
+					}
+				}
+			case *ast.IncDecStmt:
+				mark(x.X)
+			case *ast.Ident:
+				if obj := p.TypesInfo.Uses[x]; obj != nil {
+					if name, ok := vars[obj]; ok {
+						if writes[x] {
+							found[name] = true
+						} else if _, seen := found[name]; !seen {
+							found[name] = false
+						}
+					}
+				}
+			}
+			return true
+		})
+		var res []acc
+		names := []string{}
+		for k := range found {
+			names = append(names, k)
+		}
+		sort.Strings(names)
+		for _, k := range names {
+			res = append(res, acc{k, found[k]})
+		}
+		return res
+	}
+	var doList func(list []ast.Stmt) []ast.Stmt
+	var walk func(nd ast.Node)
+	doList = func(list []ast.Stmt) []ast.Stmt {
+		var outl []ast.Stmt
+		for _, s := range list {
+			switch s.(type) {
+			case *ast.BlockStmt, *ast.LabeledStmt:
+			default:
+				for _, a := range scan(s) {
+					w := "false"
+					if a.write {
+						w = "true"
+					}
+					outl = append(outl, callStmt("Global", strLit(a.name), ast.NewIdent(w)))
+					n++
+				}
+			}
+			walk(s)
+			outl = append(outl, s)
+		}
+		return outl
+	}
+	walk = func(nd ast.Node) {
+		ast.Inspect(nd, func(x ast.Node) bool {
+			switch b := x.(type) {
+			case *ast.BlockStmt:
+				b.List = doList(b.List)
+				return false
+			case *ast.CaseClause:
+				b.Body = doList(b.Body)
+				return false
+			case *ast.CommClause:
+				b.Body = doList(b.Body)
+				return false
+			}
+			return true
+		})
+	}
+	for _, d := range f.Decls {
+		if fd, ok := d.(*ast.FuncDecl); ok && fd.Body != nil && !(fd.Name.Name == "init" && fd.Recv == nil) {
+			fd.Body.List = doList(fd.Body.List)
+		}
+	}
+	st.GlobalSites += n
 	return n
 }
 
